@@ -11,6 +11,7 @@ import (
 	"time"
 
 	"github.com/jhalter/mobius/hotline"
+	"golang.org/x/crypto/bcrypt"
 )
 
 func goPathDecode(p []byte) string {
@@ -116,8 +117,10 @@ func registerC01Objects(x *Ctx) {
 		var acc hotline.AccessBitmap
 		copy(acc[:], r.Bytes(8))
 		a := hotline.NewAccount(string(r.Text(sizeBias(r, 200))), string(r.Text(sizeBias(r, 200))), pw, acc)
+		// "has a password" is bcrypt's verdict (a model parameter): bcrypt keys are NUL-terminated and cycled,
+		// so a password made of NUL bytes only is the empty password
 		hp := "0"
-		if pw != "" {
+		if bcrypt.CompareHashAndPassword([]byte(a.Password), []byte("")) != nil {
 			hp = "1"
 		}
 		ref := c.AskS("acct", hx([]byte(a.Name)), hx([]byte(a.Login)), hx(acc[:]), hp)
